@@ -62,7 +62,7 @@ def bounds(tier):
 
 
 def items(tier):
-    specs = chain_specs() + models.rate_specs()
+    specs = chain_specs() + models.degenerate_specs() + models.rate_specs()
     e3 = models.e3_specs(tier, variants=False)
     if tier == "quick":
         shapes = models.e3_shapes(tier)
